@@ -1524,6 +1524,9 @@ class Engine(object):
         if isinstance(v, VBool) and not hasattr(bool, name):
             # a real AttributeError: reachable only if the path is (an obligation with goal false under the path condition)
             return self._safe_result(FALSE, NONE, AttributeError, st, node)
+        if isinstance(v, VVal) and name == '__name__':
+            # the name of a class held as an opaque value (exc_info[0].__name__)
+            return [(VStr(self.model_app('py_class_name', [v.t], STR)), st)]
         if isinstance(v, (VStr, VSeq, VTuple, VInt, VVal, _fd2.VFlags, _fd2.VSetVal)):
             return [(VBound(v, name), st)]
         if isinstance(v, VExc):
@@ -1557,6 +1560,12 @@ class Engine(object):
                 return [remember(VOptSym(self.ctx.fresh('exc_text_isnone', BOOL), VStr(self.ctx.fresh('exc_text', STR))), st)]
             if name in ('offset', 'lineno'):
                 return [remember(VOptSym(self.ctx.fresh('exc_%s_isnone' % name, BOOL), VInt(self.ctx.fresh('exc_' + name, INT))), st)]
+            import types as _types2
+            if isinstance(getattr(v.cls, name, None), _types2.FunctionType):
+                return [(VBound(v, name), st)]       # a method of the exception class
+            if not any(name in vars(k) for k in v.cls.__mro__) and name.startswith('__') and name.endswith('__'):
+                # a dunder the class does not define (e.g. __name__ of an INSTANCE): no instance has it either
+                return self._safe_result(FALSE, NONE, AttributeError, st, node)
             raise Undecided('attribute %s of exception' % name, node)
         if isinstance(v, VNone):
             return self._safe_result(FALSE, NONE, AttributeError, st, node)
